@@ -17,3 +17,151 @@ package global
 //@ func Warn(msg string, keysAndValues []interface{})
 //@   prop -
 //@   trusted "logging through go-logr (external library): assumed to return without caller-visible writes"
+
+// ======================================================================== C16 global providers: locking
+// lock order: provider before meter before registration. A consistent order exists iff no function acquires a lower lock
+// while holding a higher one - checked at every Lock(), at every call of a function whose contract declares `acquires`,
+// and at every call through a function-typed field with a declared lock footprint.
+//@ locklevel meterProvider.mtx < meter.mtx < registration.unregMu
+
+// the unregister closure installed by RegisterCallback takes the meter's lock
+//@ funcfield registration.unreg acquires meter.mtx
+
+//@ func (m *meter) RegisterCallback$1() (err error)
+//@   prop C16
+//@   acquires meter.mtx
+//@   unchecked frame,no-panic container/list plumbing
+
+//@ guarded_by meter.mtx: instruments, delegate
+// once a delegate is installed nothing is left waiting for delegation in the instrument map
+//@ lockinv meter.mtx: self.delegate != nil ==> self.instruments == nil
+
+//@ func (m *meter) RegisterCallback(f metric.Callback, insts []metric.Observable) (r metric.Registration, err error)
+//@   prop C16
+//@   acquires m.mtx
+//@   unchecked frame,no-panic container/list plumbing and third-party SDK calls
+//@   requires m != nil
+
+//@ func (c *registration) setDelegate(m metric.Meter)
+//@   prop C16
+//@   acquires c.unregMu
+//@   unchecked frame,no-panic third-party SDK calls
+//@   assert@call RegisterCallback#1 : c.unreg != nil
+
+//@ func (c *registration) Unregister() (err error)
+//@   prop C16
+//@   acquires c.unregMu
+//@   unchecked frame
+//@   requires c != nil
+//@   ensures c.unreg == nil
+
+//@ func (m *meter) setDelegate(provider metric.MeterProvider)
+//@   prop C16
+//@   acquires m.mtx
+//@   unchecked frame,no-panic container/list plumbing, instrument delegation through interfaces
+//@   requires provider != nil
+//@   assert@call registration.setDelegate#1 : holds(m.mtx)
+
+//@ func (p *meterProvider) setDelegate(provider metric.MeterProvider)
+//@   prop C16
+//@   acquires p.mtx
+//@   unchecked frame,no-panic
+//@   requires p != nil && provider != nil
+
+// instrument constructors: delegate and instruments are read and written under the meter lock only; an instrument
+// created before installation is in the instruments map (to be connected by setDelegate, under the same lock), one
+// created afterwards comes from the delegate.
+//@ func (m *meter) Int64Counter(name string, options []metric.Int64CounterOption) (r metric.Int64Counter, err error)
+//@   prop C16
+//@   acquires m.mtx
+//@   unchecked frame,no-panic third-party SDK calls, reflect
+//@   requires m != nil
+//@ func (m *meter) Int64UpDownCounter(name string, options []metric.Int64UpDownCounterOption) (r metric.Int64UpDownCounter, err error)
+//@   prop C16
+//@   acquires m.mtx
+//@   unchecked frame,no-panic third-party SDK calls, reflect
+//@   requires m != nil
+//@ func (m *meter) Int64Histogram(name string, options []metric.Int64HistogramOption) (r metric.Int64Histogram, err error)
+//@   prop C16
+//@   acquires m.mtx
+//@   unchecked frame,no-panic third-party SDK calls, reflect
+//@   requires m != nil
+//@ func (m *meter) Int64Gauge(name string, options []metric.Int64GaugeOption) (r metric.Int64Gauge, err error)
+//@   prop C16
+//@   acquires m.mtx
+//@   unchecked frame,no-panic third-party SDK calls, reflect
+//@   requires m != nil
+//@ func (m *meter) Int64ObservableCounter(name string, options []metric.Int64ObservableCounterOption) (r metric.Int64ObservableCounter, err error)
+//@   prop C16
+//@   acquires m.mtx
+//@   unchecked frame,no-panic third-party SDK calls, reflect
+//@   requires m != nil
+//@ func (m *meter) Int64ObservableUpDownCounter(name string, options []metric.Int64ObservableUpDownCounterOption) (r metric.Int64ObservableUpDownCounter, err error)
+//@   prop C16
+//@   acquires m.mtx
+//@   unchecked frame,no-panic third-party SDK calls, reflect
+//@   requires m != nil
+//@ func (m *meter) Int64ObservableGauge(name string, options []metric.Int64ObservableGaugeOption) (r metric.Int64ObservableGauge, err error)
+//@   prop C16
+//@   acquires m.mtx
+//@   unchecked frame,no-panic third-party SDK calls, reflect
+//@   requires m != nil
+//@ func (m *meter) Float64Counter(name string, options []metric.Float64CounterOption) (r metric.Float64Counter, err error)
+//@   prop C16
+//@   acquires m.mtx
+//@   unchecked frame,no-panic third-party SDK calls, reflect
+//@   requires m != nil
+//@ func (m *meter) Float64UpDownCounter(name string, options []metric.Float64UpDownCounterOption) (r metric.Float64UpDownCounter, err error)
+//@   prop C16
+//@   acquires m.mtx
+//@   unchecked frame,no-panic third-party SDK calls, reflect
+//@   requires m != nil
+//@ func (m *meter) Float64Histogram(name string, options []metric.Float64HistogramOption) (r metric.Float64Histogram, err error)
+//@   prop C16
+//@   acquires m.mtx
+//@   unchecked frame,no-panic third-party SDK calls, reflect
+//@   requires m != nil
+//@ func (m *meter) Float64Gauge(name string, options []metric.Float64GaugeOption) (r metric.Float64Gauge, err error)
+//@   prop C16
+//@   acquires m.mtx
+//@   unchecked frame,no-panic third-party SDK calls, reflect
+//@   requires m != nil
+//@ func (m *meter) Float64ObservableCounter(name string, options []metric.Float64ObservableCounterOption) (r metric.Float64ObservableCounter, err error)
+//@   prop C16
+//@   acquires m.mtx
+//@   unchecked frame,no-panic third-party SDK calls, reflect
+//@   requires m != nil
+//@ func (m *meter) Float64ObservableUpDownCounter(name string, options []metric.Float64ObservableUpDownCounterOption) (r metric.Float64ObservableUpDownCounter, err error)
+//@   prop C16
+//@   acquires m.mtx
+//@   unchecked frame,no-panic third-party SDK calls, reflect
+//@   requires m != nil
+//@ func (m *meter) Float64ObservableGauge(name string, options []metric.Float64ObservableGaugeOption) (r metric.Float64ObservableGauge, err error)
+//@   prop C16
+//@   acquires m.mtx
+//@   unchecked frame,no-panic third-party SDK calls, reflect
+//@   requires m != nil
+
+//@ guarded_by meterProvider.mtx: meters, delegate
+//@ lockinv meterProvider.mtx: self.delegate != nil ==> len(self.meters) == 0
+//@ func (p *meterProvider) Meter(name string, opts []metric.MeterOption) (r metric.Meter)
+//@   prop C16
+//@   acquires p.mtx
+//@   unchecked frame,no-panic third-party SDK calls
+//@   requires p != nil
+
+//@ guarded_by tracerProvider.mtx: tracers, delegate
+//@ lockinv tracerProvider.mtx: self.delegate != nil ==> len(self.tracers) == 0
+//@ func (p *tracerProvider) Tracer(name string, opts []trace.TracerOption) (r trace.Tracer)
+//@   prop C16
+//@   acquires p.mtx
+//@   unchecked frame,no-panic third-party SDK calls
+//@   requires p != nil
+//@ func (p *tracerProvider) setDelegate(provider trace.TracerProvider)
+//@   prop C16
+//@   acquires p.mtx
+//@   unchecked frame,no-panic third-party SDK calls
+//@   requires p != nil && provider != nil
+//@ func (t *tracer) setDelegate(provider trace.TracerProvider)
+//@   prop C16
+//@   unchecked frame,no-panic third-party SDK calls
